@@ -8,12 +8,21 @@
       the resolved entries it names (registries that agree on those agree on the numbers);
     - the file of a module is assembled from that module's own item paths, extern values, doc and
       backend blocks only ([module_file_shape], C14).
-    NOT PROVED: the end-to-end statement for two whole builds (it needs the schedule-independence of
-    C09 for the real attempt); so the claim is partial and decided on the real code by the monitor:
+    - [C19_locality_abstract] (Locality.v, on top of Confluence.v): for ANY two worklist loops of
+      the shape of SemanticState::build, the second over a larger set of items, whose attempt
+      functions agree on the items of the first (in every state) and where the second is monotone
+      (M1): if both end accepted, every item of the first build has the same resolved value in
+      both -- whatever the two orders.  Adding items whose presence the old items' attempts do not
+      notice leaves the old items' results unchanged.
+    NOT PROVED: that the model's attempt functions for two concrete input sets agree on the items
+    of the observed module's closure (the frame lemma across two registries; [C19_lookup_local] and
+    [C19_sizes_of_resolved_stable] are its ingredients, M1 is [C09_attempt_monotone]); so the claim
+    is partial and decided on the real code by the monitor:
     pairs of accepted input sets that differ only outside the observed module's import closure,
     output file compared byte for byte. *)
 From Coq Require Import List Bool NArith String.
-From PyxisModel Require Import Base Grammar SemTypes Registry Sem ScopeLemmas.
+From Coq Require Import Permutation.
+From PyxisModel Require Import Base Grammar SemTypes Registry Sem ScopeLemmas Confluence Locality.
 Import ListNotations.
 
 Theorem C19_lookup_local : forall R R' scope name,
@@ -27,3 +36,20 @@ Theorem C19_sizes_of_resolved_stable : forall R R' t s a,
   (size_of R t = Some s -> size_of R' t = Some s) /\ (align_of R t = Some a -> align_of R' t = Some a).
 Proof. intros R R' t s a H. split; [apply size_of_mono | apply align_of_mono]; exact H. Qed.
 Print Assumptions C19_sizes_of_resolved_stable.
+
+Theorem C19_locality_abstract :
+  forall (K V : Type) (eqb : K -> K -> bool), (forall a b, reflect (a = b) (eqb a b)) ->
+  forall (att1 att2 : (K -> option V) -> K -> res V) (items1 items2 : list K),
+  incl items1 items2 ->
+  (forall R k, In k items1 -> att1 R k = att2 R k) ->
+  (forall R R' k v, le K V R R' -> R k = None -> R' k = None -> att2 R k = Done V v -> att2 R' k = Done V v) ->
+  forall o1 o2 fuel1 fuel2 R0 T1 T2,
+  (forall l, Permutation (o1 l) l) -> (forall l, Permutation (o2 l) l) ->
+  loop K V eqb att1 items1 o1 true fuel1 R0 = OOk K V T1 ->
+  loop K V eqb att2 items2 o2 true fuel2 R0 = OOk K V T2 ->
+  forall k, In k items1 -> T1 k <> None /\ T1 k = T2 k.
+Proof.
+  intros K V eqb Hspec att1 att2 items1 items2 Hsub Hloc M1 o1 o2 fuel1 fuel2 R0 T1 T2 P1 P2 H1 H2.
+  exact (accepted_builds_agree K V eqb Hspec att1 att2 items1 items2 Hsub Hloc M1 o1 o2 fuel1 fuel2 R0 T1 T2 P1 P2 H1 H2).
+Qed.
+Print Assumptions C19_locality_abstract.
